@@ -36,7 +36,8 @@ def canon_inspector(i):
     other = tuple(sorted(
         (k, v if isinstance(v, _SIMPLE) else repr(v))
         for k, v in i.__dict__.items()
-        if k not in ('_capture_regions', '_safety_checks', '_tracing')))
+        if k not in ('_capture_regions', '_safety_checks', '_tracing') and
+        not callable(v)))
     return (type(i).__name__, regs, other, tuple(i._safety_checks))
 
 
@@ -188,8 +189,8 @@ def canon_wrapper(w):
         elif isinstance(v, (set, frozenset, list, tuple)) and all(
                 isinstance(x, fi.FileInspector) for x in v):
             items.append((k, tuple(sorted(x.NAME for x in v))))
-        elif isinstance(v, Src):
-            items.append((k, (v.pos, v.closed)))
+        elif hasattr(v, 'pos') and not isinstance(v, _SIMPLE):
+            items.append((k, (v.pos, getattr(v, 'closed', None))))
         elif isinstance(v, _SIMPLE):
             items.append((k, v))
         else:
